@@ -51,7 +51,9 @@ Inductive eval :=
 | EOpq (tag : str)                        (* anything webob does not look into here (wsgi.input, flags, tuples) *)
 | EQCache (id : nat) (qs : str)           (* webob._parsed_query_vars = (GetDict object, qs) *)
 | ECkCache (jar : list (str * str)) (h : str)   (* webob._parsed_cookies = (dict, header) *)
-| ECCCache (c : option (str * nat)).      (* webob._cache_control = (header, object) | (None, None) *)
+| ECCCache (c : option (str * nat))       (* webob._cache_control = (header, object) | (None, None) *)
+| EQForeign (its : list (str * str)) (qs : str).   (* the same tuple in a COPIED environ: the GetDict belongs to (writes
+                                                       back to) the environ it was copied from; [its] = its items then *)
 
 Definition environ := list (str * eval).   (* a Python dict: insertion ordered *)
 
@@ -103,10 +105,14 @@ Inductive hkind := HGet | HCC.
 Definition is_verr (v : val) : bool := match v with VErr _ => true | _ => false end.
 Definition is_nil {A} (l : list A) : bool := match l with [] => true | _ => false end.
 
-Record cfg := mkCfg { cc_assign_keeps_obj : bool;      (* pinned: request.py:1122-1125 caches the assigned, unbound object *)
+Record cfg := mkCfg { cc_reuse_needs_bound : bool;     (* fixes/C01-4: the getter reuses the cached object only when it is bound
+                                                          to this environ (before: whenever the header text matches) *)
+                      cc_assign_keeps_obj : bool;      (* pinned: request.py:1122-1125 caches the assigned, unbound object *)
                       cc_update_invalidates : bool }.  (* repaired: _update_cache_control drops the cached object *)
-Definition repaired : cfg := mkCfg false true.
-Definition pinned : cfg := mkCfg true false.
+Definition repaired : cfg := mkCfg true false true.
+Definition pinned : cfg := mkCfg false true false.
+(* /repo before fixes/C01-4 (C01-1..3 applied) *)
+Definition before_copy_fix : cfg := mkCfg false false true.
 
 Section EnvView.
   Variable P : Type.                                   (* CacheControl.properties *)
@@ -124,7 +130,9 @@ Section EnvView.
   Variable detect_charset : str -> str.                (* charset getter's computation from CONTENT_TYPE *)
   Variable c : cfg.
 
-  Record ccobj := mkCC { cc_props : P; cc_bound : bool }.   (* bound: properties is an UpdateDict calling back into the request *)
+  (* bound: properties is an UpdateDict calling back into a request over THIS environ (false: a plain dict, or an
+     object that belongs to the environ this one was copied from) *)
+  Record ccobj := mkCC { cc_props : P; cc_bound : bool }.
 
   Inductive ccassign := AText (s : str) | AObj (p : P).
 
@@ -164,7 +172,9 @@ Section EnvView.
   | OCCMut (h : handle) (m : CCOP)
   | OCCAssign (a : ccassign)
   | OCCDel
-  | ORead (w : nat) (g : getter).           (* a plain read through long-lived wrapper w *)
+  | ORead (w : nat) (g : getter)            (* a plain read through long-lived wrapper w *)
+  | OCopyEnv.                               (* the history continues on Request(dict(environ)): a shallow copy of the environ
+                                               (cache tuples included), new wrappers, no views held yet *)
 
   Record st := mkSt { env : environ;
                       gets : list items;            (* GetDict objects ever created: their _items *)
@@ -238,7 +248,11 @@ Section EnvView.
       let s2 := if cc_empty p then s1 else cc_callback p s1 in
       (id, with_env s2 (env_set K_CCCACHE (ECCCache (Some (value, id))) (env s2))) in
     match env_get K_CCCACHE (env s) with
-    | Some (ECCCache (Some (h, id))) => if str_eqb h value then (id, s) else miss
+    | Some (ECCCache (Some (h, id))) =>
+        if str_eqb h value
+           && (negb (cc_reuse_needs_bound c)
+               || match nth_error (ccs s) id with Some o => cc_bound o | None => false end)
+        then (id, s) else miss
     | _ => miss
     end.
 
@@ -318,6 +332,15 @@ Section EnvView.
   Definition held (k : hkind) (i : nat) (s : st) : option nat :=
     nth_error (match k with HGet => hgets s | HCC => hccs s end) i.
 
+  (* what the copied environ looks like to the code: same keys and values; the GetDict and CacheControl objects in its
+     cache tuples (and every other view object made so far) belong to the environ it was copied from *)
+  Definition copy_env (s : st) : st :=
+    mkSt (map (fun kv => match snd kv with
+                         | EQCache id qs => (fst kv, EQForeign (nth id (gets s) []) qs)
+                         | v => (fst kv, v)
+                         end) (env s))
+         (gets s) (map (fun o => mkCC (cc_props o) false) (ccs s)) [] [] [None; None].
+
   Definition step (s : st) (o : op) : val * st :=
     let e := env s in
     match o with
@@ -370,6 +393,7 @@ Section EnvView.
     | OCCAssign a => (VNone, cc_assign a s)
     | OCCDel => (VNone, with_env s (env_del K_CCCACHE (env_del K_CC e)))
     | ORead w g => (VNone, snd (rd g w s))
+    | OCopyEnv => (VNone, copy_env s)
     end.
 
   Definition run (ops : list op) (s : st) : st := fold_left (fun s o => snd (step s o)) ops s.
@@ -393,6 +417,7 @@ Section EnvView.
     | ECCCache None => VList [VNone; VNone]
     | ECCCache (Some (h, id)) =>
         VList [VStr h; match nth_error (ccs s) id with Some o => cc_obs (cc_props o) | None => VErr (lit "dangling") end]
+    | EQForeign its qs => VList [vitems its; VStr qs]
     end.
   Definition is_opq (v : eval) : bool := match v with EOpq _ => true | _ => false end.
   (* the whole environ in order (opaque values, which no modelled operation touches, are left out) *)
